@@ -152,6 +152,7 @@ def main():
     # 3./4. correspondence and predicate
     try:
         cases = list(mod.generate(rng, a.tier, seed))
+        rechecked = core.recheck_sample(cases, random.Random(f"{pid}-{seed}-recheck"))
         replies = core.run_driver([c.lines for c in cases]) if not build_failed or os.path.exists(core.DRIVER) else [[] for _ in cases]
     except core.InfraError as e:
         print("INFRA:", e)
@@ -237,6 +238,7 @@ def main():
             "samples": samples or [{"note": "no correspondence cases in this run"}],
             "traces_validated_against_impl": compared,
             "predicate_evaluations": npreds,
+            "calls_repeated_at_end_of_run": rechecked,
             "disagreements_checked": len(dis),
             "falsifier_search_cases": searched,
             "distribution": {"kinds": dict(kinds), "implementation_outcomes": dict(outcomes)},
